@@ -121,6 +121,7 @@ def instr(sieve=True):
     opts = [one("hash"), one("hash"), one("str"), two("cmp"), two("eq"), one("expand"),
             st.fixed_dictionaries({"op": st.just("diff"), "a": _idx, "s": st.sampled_from(SYMS)}),
             st.fixed_dictionaries({"op": st.just("subs"), "a": _idx, "s": st.sampled_from(SYMS), "v": val}),
+            st.fixed_dictionaries({"op": st.just("subs"), "a": _idx, "s": st.sampled_from(SYMS), "v": val}),
             two("add"), two("mul"), two("sub"), two("div"),
             st.fixed_dictionaries({"op": st.just("pow"), "a": _idx, "e": st.integers(-2, 4)}),
             st.fixed_dictionaries({"op": st.just("yield")}),
@@ -129,10 +130,16 @@ def instr(sieve=True):
 
 
 def case_strategy(sieve=True, max_threads=8, max_pool=9, max_instr=12):
-    return st.fixed_dictionaries({
-        "pool": st.lists(node(sieve), min_size=2, max_size=max_pool),
-        "threads": st.lists(st.lists(instr(sieve), min_size=1, max_size=max_instr), min_size=2, max_size=max_threads),
-    })
+    def build(with_sieve):
+        return st.fixed_dictionaries({
+            "pool": st.lists(node(with_sieve), min_size=2, max_size=max_pool),
+            "threads": st.lists(st.lists(instr(with_sieve), min_size=1, max_size=max_instr), min_size=2,
+                                max_size=max_threads),
+        })
+    if not sieve:
+        return build(False)
+    # PrimePi / Primorial nodes (process-global prime sieve) at low weight: one case in five may contain them
+    return st.integers(0, 4).flatmap(lambda g: build(g == 0))
 
 
 def _val(v):
@@ -145,7 +152,19 @@ def _val(v):
     raise ValueError(v)
 
 
-def render_instr(ins, bregs, deg, sieve):
+def node_sieve_syms(n, k, psy):
+    """symbols that occur as the argument of a PrimePi / Primorial node inside pool node n (through refs)"""
+    if "ref" in n:
+        return set(psy[n["ref"] % k]) if k else set()
+    acc = set()
+    if n.get("f") in ("primepi", "primorial") and n["x"] and "s" in n["x"][0]:
+        acc.add(n["x"][0]["s"])
+    for c in n.get("x", []):
+        acc |= node_sieve_syms(c, k, psy)
+    return acc
+
+
+def render_instr(ins, bregs, deg, sieve, ssy=None):
     """-> (statement, degree estimate of its result); bregs = the visible registers that hold expressions
     (pool elements and the thread's own expression-valued results), deg = degree estimates by register"""
     def pick(i):
@@ -175,6 +194,20 @@ def render_instr(ins, bregs, deg, sieve):
         return ["diff", a, ["symbol", ins["s"]]], deg[ia]
     if op == "subs":
         v = ins["v"]
+        if ssy is not None and not ssy[ia] and ins["a"] % 4 != 3:
+            # pools with PrimePi / Primorial nodes: three substitutions in four go into an element that has one
+            hot = [r for r in bregs if ssy[r]]
+            if hot:
+                ia = hot[ins["a"] % len(hot)]
+                a = ["$", ia]
+        if ssy is not None and ssy[ia]:
+            # the target contains primepi(s) / primorial(s): substitute a small number for that very symbol, so
+            # that the substitution really evaluates through the sieve
+            cand = sorted(ssy[ia])
+            sym = cand[ins["a"] % len(cand)]
+            if "i" not in v or not (2 <= v["i"] <= 7919):
+                v = {"i": [101, 1000, 30, 7919, 12][ins["a"] % 5]}
+            return ["subs", a, ["list", ["list", ["symbol", sym], _val(v)]]], deg[ia]
         if "reg" in v:
             iv = pick(v["reg"])
             if sieve or deg[ia] * max(deg[iv], 1) > DEG_MAX:
@@ -196,22 +229,30 @@ def compile_case(case):
     pool = case["pool"]
     P = len(pool)
     sieve = uses_sieve(case)
-    pdeg, ptx = [], []
+    pdeg, ptx, psy = [], [], []
     for k, n in enumerate(pool):
         e, d = render_node(n, k, pdeg)
         ptx.append(sx(e))
         pdeg.append(d)
+        psy.append(node_sieve_syms(n, k, psy) if sieve else set())
     parts = ["(pool " + " ".join(ptx) + ")"]
     touched = []
     for lst in case["threads"]:
         stm = []
         tt = []
         deg = list(pdeg)
+        ssy = [set(x) for x in psy]
         bregs = list(range(P))
         for j, ins in enumerate(lst):
-            e, d = render_instr(ins, bregs, deg, sieve)
+            e, d = render_instr(ins, bregs, deg, sieve, ssy)
             stm.append(sx(e))
             deg.append(d)
+            # sieve symbols of the result: union over the operand registers (an over-approximation is harmless)
+            u = set()
+            for x in e[1:]:
+                if isinstance(x, list) and len(x) == 2 and x[0] == "$":
+                    u |= ssy[x[1]]
+            ssy.append(set() if e[0] == "subs" else u)
             for x in e[1:]:
                 if isinstance(x, list) and len(x) == 2 and x[0] == "$" and x[1] < P:
                     tt.append((x[1], e[0]))
